@@ -738,3 +738,108 @@ def kw(call: ast.Call, name: str) -> Optional[ast.AST]:
 
 def numeric_consts(sl: Slice) -> set:
     return {c for c in sl.consts if isinstance(c, (int, float, complex)) and not isinstance(c, bool)}
+
+
+# ---------------------------------------------------------------------------------------------
+# path conditions inside loops / blocks
+
+
+def _ends_abruptly(body: list) -> bool:
+    return bool(body) and isinstance(body[-1], (ast.Continue, ast.Return, ast.Raise, ast.Break))
+
+
+def conditions_for(fn: ast.AST, target: ast.AST, stop: Optional[ast.AST] = None) -> Optional[list]:
+    """Conditions that necessarily hold when statement `target` (an ast.stmt inside `fn`) starts executing, collected
+    from lexically enclosing if/while tests (with polarity) and from earlier sibling guards of the form
+    `if T: ...; continue/return/raise/break` (recorded as (T, False)). Stops at loop `stop` (exclusive) when given.
+    Returns a list of (test expr, polarity) or None when the target is not found."""
+
+    def search(body: list, conds: list) -> Optional[list]:
+        local = list(conds)
+        for s in body:
+            if s is target:
+                return local
+            if isinstance(s, ast.If):
+                r = search(s.body, local + [(s.test, True)])
+                if r is not None:
+                    return r
+                r = search(s.orelse, local + [(s.test, False)])
+                if r is not None:
+                    return r
+                if not s.orelse and _ends_abruptly(s.body):
+                    local = local + [(s.test, False)]
+                elif s.orelse and _ends_abruptly(s.orelse) and not _ends_abruptly(s.body):
+                    local = local + [(s.test, True)]
+            elif isinstance(s, (ast.For, ast.AsyncFor, ast.While)):
+                inner_conds = [] if s is stop else local + [("loop", s)]
+                r = search(s.body, inner_conds)
+                if r is not None:
+                    return r
+                r = search(s.orelse, local)
+                if r is not None:
+                    return r
+            elif isinstance(s, (ast.With, ast.AsyncWith)):
+                r = search(s.body, local)
+                if r is not None:
+                    return r
+            elif isinstance(s, ast.Try):
+                for blk in (s.body, s.orelse, s.finalbody):
+                    r = search(blk, local + ([("try", s)] if blk is s.body else []))
+                    if r is not None:
+                        return r
+                for h in s.handlers:
+                    r = search(h.body, local + [("except", h)])
+                    if r is not None:
+                        return r
+            elif isinstance(s, ast.Match):
+                for c in s.cases:
+                    r = search(c.body, local + [("case", c)])
+                    if r is not None:
+                        return r
+            else:
+                # the target may be an expression statement containing the node of interest
+                if any(x is target for x in ast.walk(s)):
+                    return local
+        return None
+
+    return search(getattr(fn, "body", []), [])
+
+
+def stmt_of(fn: ast.AST, inner: ast.AST) -> Optional[ast.stmt]:
+    """Innermost simple statement of `fn` containing expression node `inner`."""
+    best = None
+    for s in ast.walk(fn):
+        if isinstance(s, ast.stmt) and not isinstance(s, (ast.If, ast.For, ast.While, ast.With, ast.Try, ast.FunctionDef, ast.ClassDef, ast.Match)):
+            if any(x is inner for x in ast.walk(s)):
+                best = s
+    return best
+
+
+def loop_passes(cfg: CFG, loop: Node, pred) -> bool:
+    """Every path from the loop header through the body back to the header passes a node satisfying `pred`."""
+    body_first = [s for s in loop.succ if any(t is loop and br is True for t, br in s.lexical_tests)]
+    seen = set()
+    stack = [s for s in body_first if not pred(s)]
+    if not body_first:
+        return False
+    while stack:
+        n = stack.pop()
+        if n in seen:
+            continue
+        seen.add(n)
+        for s in n.succ:
+            if s is loop:
+                return False
+            if not any(t is loop for t, _ in s.lexical_tests):
+                continue  # left the loop (break/return/raise): not a path back to the header
+            if not pred(s) and s not in seen:
+                stack.append(s)
+    return True
+
+
+def loops_over(fnq: Fn, what) -> list[Node]:
+    return [n for n in fnq.cfg.stmt_nodes() if n.kind == "for" and what(n)]
+
+
+def has_subscript(exprs: Iterable[ast.AST]) -> bool:
+    return any(isinstance(x, (ast.Subscript, ast.Slice)) for e in exprs for x in ast.walk(e))
